@@ -7,7 +7,7 @@
    The result of the model IS the list of units held, so size() = number of units holds by
    construction; the terminator cell is written by allocate() and observed by the harness.     *)
 From Coq Require Import NArith List Bool.
-From ST Require Import Base.Outcome Base.Units Utf.Spec Utf.Tokens Utf.Model Utf.ProofsC01 Utf.ProofsC03.
+From ST Require Import Base.Outcome Base.Units Utf.Spec Utf.Tokens Utf.Model Utf.ProofsC01 Utf.ProofsC03 Utf.ApiCoverage.
 Import ListNotations.
 Local Open Scope N_scope.
 
@@ -86,3 +86,9 @@ Proof. split; [reflexivity|]. unfold fits. vm_compute. reflexivity. Qed.
 (* outside the bound the wrappers stop by the library's own documented assertion *)
 Example beyond_the_bound : forall m s, ~ fits s -> utf8_to_utf16 m (Some s) = Abort AbHuge.
 Proof. exact huge_is_asserted. Qed.
+
+(* ---- every conversion route declared in the headers (harvested from the AST on this run) is bound to its
+   Model.v transcription in Utf/ApiCoverage.v, so the statements above range over all of them ---- *)
+Theorem every_route_is_modelled : ST.Utf.ApiCoverage.routes_covered_b = true.
+Proof. exact ST.Utf.ApiCoverage.routes_covered. Qed.
+Print Assumptions every_route_is_modelled.
